@@ -402,62 +402,6 @@ theorem run_inv2 (p : Pipe) (ops : List PipeOp) (h : Inv2 p) : Inv2 (p.run ops) 
   | nil => exact h
   | cons op ops ih => exact ih _ (step_inv2 p op h)
 
-/-- without a peer-initiated close or parse failure in the history, a connection that is gone
-has delivered every byte handed to `send` -/
-def NoLoss (p : Pipe) : Prop := p.valid = false → p.sent = p.handed.length
-
-theorem run_noLoss (p : Pipe) (ops : List PipeOp) (h : NoLoss p) (hok : traceOk p ops = true)
-    (hnd : PipeOp.drop ∉ ops) (hnh : PipeOp.halfClose ∉ ops) : NoLoss (p.run ops) := by
-  induction ops generalizing p with
-  | nil => exact h
-  | cons op ops ih =>
-    simp only [traceOk, Bool.and_eq_true] at hok
-    simp only [List.mem_cons, not_or] at hnd hnh
-    refine ih (p.step op) ?_ hok.2 hnd.2 hnh.2
-    cases op with
-    | req last => exact h
-    | commit i r =>
-      obtain ⟨hg, hs, _, hv⟩ := commit_grow p i r
-      intro hv'
-      simp only [Pipe.step] at hv' ⊢
-      rw [hv] at hv'
-      -- an invalid connection ignores the commit entirely
-      simp [commit, hv']
-      exact h hv'
-    | sendComplete =>
-      simp only [Pipe.step, sendComplete]
-      split
-      · exact h
-      · rename_i hv
-        split
-        · intro _
-          have := hok.1
-          have hv2 : p.valid = true := by simpa using hv
-          simp only [hv2, Bool.not_true, Bool.false_or, decide_eq_true_eq] at this
-          simpa [disconnect, handed] using this
-        · exact h
-    | drop => exact absurd rfl hnd.1
-    | kernel n =>
-      simp only [Pipe.step, kernel]
-      split
-      · exact h
-      · rename_i hv
-        intro hv'
-        have hv2 : p.valid = true := by
-          cases hpv : p.valid with
-          | true => rfl
-          | false => simp [hpv] at hv
-        simp [hv2] at hv'
-    | writeError =>
-      simp only [Pipe.step, writeError]
-      split
-      · exact h
-      · rename_i hv
-        intro hv'
-        have hv2 : p.valid = true := by simpa using hv
-        simp [hv2] at hv'
-    | halfClose => exact absurd rfl hnh.1
-
 /-! ### after a write error nothing more reaches the peer -/
 
 theorem flush_wb (f : Nat) (p : Pipe) : (flush f p).wbroken = p.wbroken := by
@@ -482,6 +426,82 @@ theorem commit_wb (p : Pipe) (i : Nat) (r : Bytes) : (p.commit i r).wbroken = p.
       · rfl
       · rw [flush_wb]
     · rfl
+
+/-- without a peer-initiated close or parse failure in the history and without a write error, a connection
+that is gone has delivered every byte handed to `send` -/
+def NoLoss (p : Pipe) : Prop := p.valid = false → p.wbroken = false → p.sent = p.handed.length
+
+theorem step_wb_mono (p : Pipe) (op : PipeOp) (h : (p.step op).wbroken = false) : p.wbroken = false := by
+  cases hb : p.wbroken with
+  | false => rfl
+  | true =>
+    have : (p.step op).wbroken = true := by
+      cases op with
+      | req last => simpa [Pipe.step, onRequest] using hb
+      | commit i r => simp only [Pipe.step]; rw [commit_wb]; exact hb
+      | sendComplete => simp only [Pipe.step, sendComplete]; split; exact hb; split <;> simpa [disconnect] using hb
+      | drop => simp only [Pipe.step, peerClosed]; split <;> simpa [disconnect] using hb
+      | kernel n => simp only [Pipe.step, kernel]; split <;> simpa using hb
+      | writeError => simp only [Pipe.step, writeError]; split <;> simp [hb]
+      | halfClose => simp only [Pipe.step, peerClosed]; split <;> simpa [disconnect] using hb
+    rw [this] at h; cases h
+
+theorem run_noLoss (p : Pipe) (ops : List PipeOp) (h : NoLoss p) (hok : traceOk p ops = true)
+    (hnd : PipeOp.drop ∉ ops) (hnh : PipeOp.halfClose ∉ ops) : NoLoss (p.run ops) := by
+  induction ops generalizing p with
+  | nil => exact h
+  | cons op ops ih =>
+    simp only [traceOk, Bool.and_eq_true] at hok
+    simp only [List.mem_cons, not_or] at hnd hnh
+    refine ih (p.step op) ?_ hok.2 hnd.2 hnh.2
+    intro hv' hwb'
+    have hwb : p.wbroken = false := step_wb_mono p op hwb'
+    cases op with
+    | req last => exact h hv' hwb
+    | commit i r =>
+      obtain ⟨hg, hs, _, hv⟩ := commit_grow p i r
+      simp only [Pipe.step] at hv' ⊢
+      rw [hv] at hv'
+      -- an invalid connection ignores the commit entirely
+      simp [commit, hv']
+      exact h hv' hwb
+    | sendComplete =>
+      simp only [Pipe.step, sendComplete] at hv' ⊢
+      split
+      · rename_i hv
+        exact h (by simpa using hv) hwb
+      · rename_i hv
+        split
+        · have := hok.1
+          have hv2 : p.valid = true := by simpa using hv
+          simp only [hv2, hwb, Bool.not_true, Bool.false_or, decide_eq_true_eq] at this
+          simpa [disconnect, handed] using this
+        · rename_i hpc
+          have hv2 : p.valid = true := by simpa using hv
+          simp [hv2, hpc] at hv'
+    | drop => exact absurd rfl hnd.1
+    | kernel n =>
+      simp only [Pipe.step, kernel] at hv' ⊢
+      split
+      · rename_i hc
+        simp only [hc, if_true] at hv'
+        exact h hv' hwb
+      · rename_i hc
+        have hv2 : p.valid = true := by
+          cases hpv : p.valid with
+          | true => rfl
+          | false => simp [hpv] at hc
+        simp [hwb, hv2] at hv'
+    | writeError =>
+      simp only [Pipe.step, writeError] at hv' ⊢
+      split
+      · rename_i hc
+        simp only [hc, if_true] at hv'
+        exact h hv' hwb
+      · rename_i hc
+        have hv2 : p.valid = true := by simpa using hc
+        simp [hv2] at hv'
+    | halfClose => exact absurd rfl hnh.1
 
 /-- the state a broken connection is frozen in, as far as the peer is concerned -/
 structure Frozen (p q : Pipe) : Prop where
